@@ -164,6 +164,7 @@ class Server:
             'probe_faults': None,      # {host-key name asked for by the client: fault applied to that KEXDH reply}
             'rate': 'normal',          # behaviour towards non-blocking (rate-test) connections
             'latency': False,          # True: everything the peer sends arrives only after the client has started waiting for it (a scheduling point under vlib.sched)
+            'chatter_text': None,      # text of those debug messages (latin-1 string of the UTF-8 bytes)
             'chatter': None,           # {message kind: n}: n SSH_MSG_DEBUG packets in front of every message of that kind (legal at any time, RFC 4253 11.3)
             'check_e': True,           # validate the client's public DH value against the group in use, as servers do (0 < e < p), and disconnect otherwise
         }
@@ -317,7 +318,8 @@ class Conn:
         data, after = apply_fault(f, data, payload)
         n_dbg = (self.server.spec.get('chatter') or {}).get(what, 0)
         if n_dbg and data and payload is not None:
-            data = wire.pkt(b'\x04\x01' + wire.sstr(b'chatter before %s' % what.encode()) + wire.sstr(b'en')) * n_dbg + data
+            text = j2b(self.server.spec.get('chatter_text') or '') or b'chatter before %s' % what.encode()      # (RFC 4253 11.3: the message is ISO-10646 UTF-8)
+            data = wire.pkt(b'\x04\x01' + wire.sstr(text) + wire.sstr(b'en')) * n_dbg + data
         if data:
             if self.server.spec.get('latency') and not self.nonblocking:
                 self.deferred += data       # on its way: there once the client has waited for it
